@@ -41,6 +41,8 @@ type c06Scenario struct {
 	Mode     string    `json:"mode,omitempty"` // "" = in flight, "exit", "alloc"
 	Stream   []byte    `json:"stream,omitempty"`
 	BodyLen  int       `json:"body_len,omitempty"`
+	Mpl      int       `json:"mpl,omitempty"`
+	Cfg      int       `json:"cfg,omitempty"`
 	Ops      []c06RsOp `json:"ops,omitempty"`
 	Inflight bool      `json:"inflight"`
 	Handler  bool      `json:"handler"`
